@@ -77,7 +77,23 @@ def _exclusion_pre(exclude_ids, part):
     return evaluate, " and ".join("not (%s)" % e for e in exprs)
 
 
+def _custom(ob):
+    r = ob.custom()
+    st = {"holds": "confirmed", "violated": "refuted"}.get(r.get("status"), "unknown")
+    out = {"status": st, "conditions": [{"post": "custom", "status": st,
+                                         "messages": [json.dumps(r, default=repr)[:1500]]}],
+           "pre": r.get("bounds", []), "post": r.get("asserts", []),
+           "counterexamples": [r["counterexample"]] if r.get("counterexample") else [],
+           "paths": 0, "z3_checks": r.get("queries", 0), "z3_time_s": r.get("solver_time_s", 0.0),
+           "custom": r}
+    if st == "unknown":
+        out["detail"] = r.get("reason")
+    return out
+
+
 def _analyze(mod, ob, mode, timeout, exclude=()):
+    if ob.custom is not None:
+        return _custom(ob)
     import collections
     import z3
     from crosshair.core_and_libs import analyze_function, run_checkables  # noqa
